@@ -436,6 +436,12 @@ func (pkgGen *HttpPackageGenerator) genRouter(pkg *HttpPackage, root *RouterNode
 		mws := []string{}
 		hook := func(layer int, node *RouterNode) error {
 			if len(node.Children) == 0 {
+				// a leaf declares no group middleware, but its handler middleware shares
+				// the name space: a handler called like a path prefix ("Users" under
+				// "/Users") must not reuse that group's name
+				if len(node.HandlerMiddleware) != 0 {
+					mws, node.HandlerMiddleware = appendMw(mws, node.HandlerMiddleware)
+				}
 				return nil
 			}
 			groupMwName := node.GroupMiddleware
